@@ -61,6 +61,7 @@ type Goroutine struct {
 type Scheduler struct {
 	in          *Interp
 	gs          []*Goroutine
+	timersFired int
 	main        *Goroutine
 	preempt     int
 	maxPreempt  int
@@ -765,6 +766,11 @@ func init() {
 		k := len(items)
 		if len(items) > 0 {
 			k = in.choose(len(items)+1, "pool")
+			// what a real sync.Pool hands back cannot be forced in a native run:
+			// results of this path are confirmed by re-execution, not natively
+			if in.run != nil {
+				in.run.poolPath = true
+			}
 		}
 		if k < len(items) {
 			it := items[k]
@@ -989,6 +995,7 @@ func init() {
 		go in.goroutineMain(s, g, func() {
 			// fired: from now on an ordinary goroutine running the callback
 			g.isTimer = false
+			s.timersFired++
 			in.callFunc(nil, token.NoPos, f, nil)
 		})
 		return tc
